@@ -316,7 +316,11 @@ def collection_spec(draw, max_genes=2, max_fcs=2, max_vcs=1, with_variants=True,
     # distinct gene/fc content is guaranteed by distinct ids
     for i, g_ in enumerate(genes):
         g_["gene_id"] = "g%d%s" % (i, g_.get("gene_id") or "")
+        for t in g_["transcripts"]:  # interval identifiers must be unique within a collection (documented)
+            t["transcript_id"] = "g%d%s" % (i, t["transcript_id"])
     for i, c in enumerate(fcs):
         c["feature_collection_id"] = "fc%d%s" % (i, c.get("feature_collection_id") or "")
+        for f in c["features"]:
+            f["feature_id"] = "c%d%s" % (i, f["feature_id"])
     return {"genes": genes, "feature_collections": fcs, "variant_collections": vcs, "name": draw(st.one_of(st.none(), IDENT)),
             "id": draw(st.one_of(st.none(), IDENT)), "qualifiers": draw(simple_qualifiers(2)), "hi": hi}
